@@ -1,6 +1,7 @@
 package props
 
 import (
+	"context"
 	"fmt"
 
 	"verif/harness/bfs"
@@ -63,3 +64,5 @@ func cap2(n, m int) int {
 	}
 	return n
 }
+
+var bgCtx = context.Background()
